@@ -61,6 +61,15 @@ def lib():
     return _lib
 
 
+def fresh_display_module():
+    """Re-import the display module: whatever module-level state it may keep (format caches, counters) is as in a new
+    process.  Used where a clause is about what the FIRST call of a process shows."""
+    import importlib
+    import basic_robotics.utilities.disp as dmod
+    lib()
+    _lib["disp"] = importlib.reload(dmod).disp
+
+
 def warm():
     L = lib()
     with contextlib.redirect_stdout(io.StringIO()):
@@ -358,6 +367,7 @@ def c_table_elements(case, ctx):
         # display history: something with very large entries was shown with the same number of decimals first.
         # What a call shows is a function of its own arguments, not of what was displayed before.
         ctx.label("a large-magnitude array was displayed first")
+        fresh_display_module()          # ... first in the life of the module (a new process)
         kw = {} if case["nd"] is None else {"nd": case["nd"]}
         sut(lib()["disp"], np.array([2.5e8, 0.125, -7.0e6]), "PRELUDE", noprint=True, **kw)
     _, ret, _ = call(case)
